@@ -15,7 +15,7 @@ def run(prop, tier, seed, ctx):
                        "length bound), executed in one forked process through Bundle.run_ics_bundle; every grading's "
                        "(label, title, message, correct, score, student output, error) is compared with the pair's "
                        "fresh-interpreter baseline; non-trivial = history of length >= 2; distinct = distinct history")
-    cfgs = ["MC_Grading_q.cfg", "MC_Grading_types_q.cfg", "MC_Grading_scripts2_q.cfg", "MC_Grading_modules_q.cfg", "MC_Grading_cover_q.cfg", "MC_Grading_vpl_q.cfg", "MC_Grading_files_q.cfg"] if tier == "quick" else ["MC_Grading_t.cfg", "MC_Grading_t3.cfg", "MC_Grading_types_q.cfg", "MC_Grading_types_t.cfg", "MC_Grading_scripts2_q.cfg", "MC_Grading_modules_q.cfg", "MC_Grading_cover_q.cfg", "MC_Grading_vpl_q.cfg", "MC_Grading_files_q.cfg"]
+    cfgs = ["MC_Grading_q.cfg", "MC_Grading_types_q.cfg", "MC_Grading_scripts2_q.cfg", "MC_Grading_modules_q.cfg", "MC_Grading_cover_q.cfg", "MC_Grading_vpl_q.cfg", "MC_Grading_files_q.cfg", "MC_Grading_mocks_q.cfg"] if tier == "quick" else ["MC_Grading_t.cfg", "MC_Grading_t3.cfg", "MC_Grading_types_q.cfg", "MC_Grading_types_t.cfg", "MC_Grading_scripts2_q.cfg", "MC_Grading_modules_q.cfg", "MC_Grading_cover_q.cfg", "MC_Grading_vpl_q.cfg", "MC_Grading_files_q.cfg", "MC_Grading_mocks_q.cfg"]
     hists = {}
     for cfg in cfgs:
         res = tlc.run("MC_Grading", cfg, workers=4, timeout=600)
@@ -80,6 +80,9 @@ def run(prop, tier, seed, ctx):
     mres = tlc.run("MC_Grading", "MUT_Grading_student_modules_stay.cfg", workers=2, timeout=300)
     if "PristineAtStart" not in mres.violated:
         raise MachineryError("mutant student_modules_stay did not violate PristineAtStart")
+    kres = tlc.run("MC_Grading", "MUT_Grading_mock_tables_stay.cfg", workers=2, timeout=300)
+    if "PristineAtStart" not in kres.violated:
+        raise MachineryError("mutant mock_tables_stay did not violate PristineAtStart")
     gres = tlc.run("MC_Grading", "MUT_Grading_gs_maximum_stays.cfg", workers=2, timeout=300)
     if "PristineAtStart" not in gres.violated:
         raise MachineryError("mutant gs_maximum_stays did not violate PristineAtStart")
